@@ -902,3 +902,96 @@ pub fn hash_colliding_numbers() -> Vec<(&'static str, &'static str, &'static str
 pub fn hash_colliding_keys() -> Vec<(&'static str, &'static str, &'static str)> {
     vec![("FNV-1a 32", "k32728", "k261234"), ("FNV-1 32", "k37843", "k682900"), ("Java 31", "Aa", "BB"), ("Java 31", "AaAa", "BBBB"), ("Java 31", "AaBB", "BBAa"), ("FNV-1a 32", "k32729", "k261235")]
 }
+
+/// Names of environment variables a change could plausibly consult: the ones the Rust runtime, the usual logging /
+/// colour / locale conventions and this tool's name suggest, PLUS every name the tree under test itself mentions
+/// next to an environment accessor (`env::var("X")`, `var_os("X")`, `getenv("X")`, `environ["X"]`, `environ.get("X")`,
+/// `env!("X")`, `option_env!("X")`) - found by scanning `$VERIF_REPO/src` and `$VERIF_REPO/py` when the check starts,
+/// so a variable introduced by a change is in the alphabet of the run that checks that change.
+pub fn env_names() -> Vec<String> {
+    let mut names: Vec<String> = [
+        "RUST_MIN_STACK", "RUST_BACKTRACE", "RUST_LIB_BACKTRACE", "RUST_LOG", "RUST_LOG_STYLE", "NO_COLOR", "CLICOLOR", "CLICOLOR_FORCE", "FORCE_COLOR", "COLORTERM", "TERM", "COLUMNS", "LINES",
+        "LANG", "LC_ALL", "LC_NUMERIC", "LC_CTYPE", "LANGUAGE", "TZ", "HOME", "PWD", "OLDPWD", "TMPDIR", "USER", "SHELL", "PATH_INFO", "DEBUG", "VERBOSE", "CI", "RAYON_NUM_THREADS",
+        "JSONLOGIC", "JSONLOGIC_DATA", "JSONLOGIC_RULE", "JSONLOGIC_LOGIC", "JSONLOGIC_STRICT", "JSONLOGIC_DEBUG", "JSONLOGIC_LOG", "JSONLOGIC_MAX_DEPTH", "JSONLOGIC_CACHE", "JSONLOGIC_RS_DEBUG",
+        "PYTHONHASHSEED", "PYTHONUTF8", "PYTHONIOENCODING", "PYTHONOPTIMIZE", "PYTHONDEBUG", "PYTHONMALLOC",
+    ]
+    .iter()
+    .map(|s| s.to_string())
+    .collect();
+    let repo = std::env::var("VERIF_REPO").unwrap_or_else(|_| "/repo".into());
+    let mut stack = vec![std::path::PathBuf::from(format!("{}/src", repo)), std::path::PathBuf::from(format!("{}/py", repo)), std::path::PathBuf::from(format!("{}/build.rs", repo))];
+    while let Some(p) = stack.pop() {
+        if p.is_dir() {
+            if let Ok(rd) = std::fs::read_dir(&p) {
+                for e in rd.flatten() {
+                    stack.push(e.path());
+                }
+            }
+            continue;
+        }
+        let ext = p.extension().and_then(|e| e.to_str()).unwrap_or("");
+        if ext != "rs" && ext != "py" {
+            continue;
+        }
+        let text = match std::fs::read_to_string(&p) {
+            Ok(t) => t,
+            Err(_) => continue,
+        };
+        for pat in ["var(", "var_os(", "getenv(", "environ[", "environ.get(", "env!(", "option_env!(", "remove_var(", "set_var("] {
+            let mut from = 0usize;
+            while let Some(i) = text[from..].find(pat) {
+                let at = from + i + pat.len();
+                from = at;
+                let rest = text[at..].trim_start();
+                let q = match rest.chars().next() {
+                    Some(c) if c == '"' || c == '\'' => c,
+                    _ => continue,
+                };
+                if let Some(end) = rest[1..].find(q) {
+                    let name = &rest[1..1 + end];
+                    if !name.is_empty() && name.len() < 64 && name.chars().all(|c| c.is_ascii_alphanumeric() || c == '_') && name.chars().any(|c| c.is_ascii_uppercase()) {
+                        names.push(name.to_string());
+                    }
+                }
+            }
+        }
+    }
+    names.sort();
+    names.dedup();
+    names
+}
+
+/// Values tried for each environment variable (besides leaving it unset).
+pub fn env_values() -> Vec<&'static str> {
+    vec!["", "0", "1", "true", "full", "trace", "16", "4096", "1048576", "99999999999999999999", "C", "tr_TR.UTF-8", "/nonexistent", "[1,2]", "{\"var\":\"a\"}"]
+}
+
+/// Groups of spellings that some normalisation (case folding, trimming, dropping a sign or leading zeros, width or
+/// digit-script folding, separator stripping) maps to one key although they denote DIFFERENT values under the
+/// properties' conversions - or the same value where a cruder reading would tell them apart.
+pub fn normalisation_twin_groups() -> Vec<Vec<&'static str>> {
+    vec![
+        vec!["Infinity", "infinity", "INFINITY", "+Infinity", "-Infinity", "-infinity", " Infinity ", "Infinit", "Infinityx"],
+        vec!["0xff", "0XFF", "0xFF", "0Xff", "0xfg", "0x ff", "0xff ", "-0xff", "+0xff", "0x+ff", "0x-ff", "ff", "0ff"],
+        vec!["0b11", "0B11", "0b12", "0o17", "0O17", "0o18", "011", "017", "11"],
+        vec!["1e3", "1E3", "1e+3", "1e03", "1e 3", "1e", "1000", "1e3.0", "1,000", "1_000", "1 000"],
+        vec!["1", " 1", "1 ", "\t1\n", "01", "+1", "1.0", "1.", "1.00", "+1.0", "1.0.0", "\u{661}", "\u{ff11}", "1\u{0}"],
+        vec!["", " ", "0", "00", "-0", "+0", "0.0", ".0", "0.", ".", "-", "+", "null", "false"],
+        vec!["NaN", "nan", "NAN", "-NaN"],
+        vec!["true", "TRUE", "True", "false", "FALSE", " true"],
+        vec!["12px", "12PX", "12 px", " 12px", "12", "12.px", "px12"],
+        vec![".5", "0.5", "+.5", "-.5", "5e-1", "0,5", ".5.", "00.5"],
+    ]
+}
+
+/// Pairs of DIFFERENT var paths whose segment lists collapse to one text under a joiner (the dot itself, the empty
+/// joiner, a slash): whoever keys a remembered lookup on the joined text confuses them.
+pub fn join_colliding_paths() -> Vec<Vec<&'static str>> {
+    vec![
+        vec!["a\\.b.c", "a.b.c", "a.b\\.c", "a\\.b\\.c"],
+        vec!["ab.c", "a.bc", "abc", "a.b.c"],
+        vec!["a/b.c", "a.b/c", "a\\/b.c", "a.b.c"],
+        vec!["x.0.1", "x.01", "x.0\\.1", "x\\.0.1"],
+        vec!["a\\\\.b", "a\\\\\\.b", "a\\.b", "a.b"],
+    ]
+}
